@@ -4823,6 +4823,15 @@ class ParseCtx:
     def _parse_macro_call(self, lark_node_for_error: lark.Tree, macro: Macro, arguments: List[lark.Tree]):
         if len(arguments) != len(macro.arguments):
             raise IllegalParseTree("Incorrect number of arguments", lark_node_for_error)
+        # macros are expanded in place, so one that keeps calling itself never stops expanding (the same macro may well be active
+        # several times, e.g. when it is handed itself through a macro argument, so only the depth can tell)
+        depth = 0
+        instance = self.active_macro
+        while instance is not None:
+            depth += 1
+            instance = instance.parent
+        if depth >= 64:
+            raise IllegalParseTree(f"Macro calls nested too deeply while expanding {macro.name} (recursive macro?)", lark_node_for_error)
         self.bound_argument_stack.append(
             macro.bind_arguments_for(arguments, self)
         )
